@@ -283,6 +283,28 @@ func (x *Exec) callCommon(fr *Frame, st *State, val ssa.Value, cc *ssa.CallCommo
 	return res
 }
 
+// contractFor finds the contract for a function key. Contracts about functions outside
+// /repo are scoped to the /repo package whose contract file declares them: the one
+// declared by the package of the function under verification wins, otherwise any
+// unscoped one.
+func (x *Exec) contractFor(key string) *Contract {
+	if x.topFn != nil && x.topFn.Pkg != nil {
+		if c := x.cs.Funcs[key+"@"+x.topFn.Pkg.Pkg.Path()]; c != nil {
+			return c
+		}
+	}
+	if len(x.stack) > 0 {
+		for i := len(x.stack) - 1; i >= 0; i-- {
+			if f := x.stack[i]; f != nil && f.Pkg != nil {
+				if c := x.cs.Funcs[key+"@"+f.Pkg.Pkg.Path()]; c != nil {
+					return c
+				}
+			}
+		}
+	}
+	return x.cs.Funcs[key]
+}
+
 // pureFieldFunc: the call goes through a function-valued struct field that a contract
 // file declares pure (`func field:T.f` + `pure`).
 func (x *Exec) pureFieldFunc(cc *ssa.CallCommon) (string, bool) {
@@ -351,7 +373,7 @@ func (x *Exec) portContract(m *types.Func) *Contract {
 	}
 	rt := sig.Recv().Type()
 	if n, ok := rt.(*types.Named); ok {
-		return x.cs.Funcs[m.Pkg().Path()+".("+n.Obj().Name()+")."+m.Name()]
+		return x.contractFor(m.Pkg().Path() + ".(" + n.Obj().Name() + ")." + m.Name())
 	}
 	return nil
 }
@@ -377,7 +399,7 @@ func (x *Exec) callFunc(fr *Frame, st *State, callee *ssa.Function, bindings []V
 	if v, ok := x.abstractCall(st, callee, args, rt); ok {
 		return v
 	}
-	c := x.cs.Funcs[key]
+	c := x.contractFor(key)
 	if c != nil && c.Inline != "always" && (callee.Blocks == nil || c.Trusted || c.Inline == "never" || len(c.Ensures) > 0 || c.HasAssigns) && !(len(x.stack) > 0 && x.stack[0] == callee && false) {
 		x.ccBindings = bindings
 		defer func() { x.ccBindings = nil }()
@@ -563,7 +585,11 @@ func (x *Exec) callContract(fr *Frame, st *State, c *Contract, callee *ssa.Funct
 	if x.calledContracts == nil {
 		x.calledContracts = map[string]bool{}
 	}
-	x.calledContracts[c.Pkg+"."+c.Key] = true
+	ck := c.Pkg + "." + c.Key
+	if c.Scope != "" {
+		ck += "@" + c.Scope
+	}
+	x.calledContracts[ck] = true
 	names := x.paramNames(callee, method)
 	env := &Env{x: x, pkg: x.prog.typesPkg(c.Pkg), names: map[string]V{}, cur: st, old: st, contract: c}
 	for i, n := range names {
@@ -898,7 +924,7 @@ func (x *Exec) collectMods(fn *ssa.Function, blocks map[*ssa.BasicBlock]bool, se
 						}
 						continue
 					}
-					if c := x.cs.Funcs[key]; c != nil && (c.HasAssigns || c.Pure) {
+					if c := x.contractFor(key); c != nil && (c.HasAssigns || c.Pure) {
 						if len(c.Assigns) > 0 {
 							// conservatively: the types of the assigned places are unknown here
 							ms, a2 := x.contractModKeys(c, cf)
